@@ -28,6 +28,8 @@ import (
 //   2 PeriodLimit, faults          3 TokenLimiter, faults / outages
 // Relaxations that are only valid under faults (errors, rescue mode, results that
 // differ from the server's decision) are never active in members 0 and 1.
+// Members 0 and 1 may meet a store that is slow but healthy (slow_test.go): correct
+// replies within go-redis' timeouts, no fault, nothing relaxed.
 //
 // Both oracles work from what the SERVER executed (simredis OnExec: every command in
 // server order with its virtual instant) and from what each CLIENT call returned.
